@@ -344,5 +344,43 @@ def decide(sc, prop=None, full_digest=True):
     return run, viols, stats
 
 
+def solo_obs(sc):
+    """every client op evaluated once, un-pre-empted, in program order in a cold world with the
+    initial registers and no nemesis: a pure function of the scenario and the code (used for the
+    compiled-vs-pure-Python differential)."""
+    world = get_world()
+    world.reset(sc.get("world", {}))
+    out = []
+    pool = [build(s, None) for s in sc.get("pool", [])]
+    for actor in sc["actors"]:
+        if actor.get("nemesis"):
+            continue
+        res = []
+        env = Env(pool, res)
+        for op in actor["ops"]:
+            if op[0] in ("barrier", "nem"):
+                res.append(None)
+                continue
+            try:
+                r = execute(op, env)
+            except Skip:
+                r = Skip
+            except HarnessError:
+                raise
+            except Exception as e:
+                r = e
+            res.append(r)
+            try:
+                out.append(["SKIP"] if r is Skip else observe(r))
+            except Exception as e:
+                out.append(["OBS-EXC", type(e).__name__])
+    world.reset({})
+    return out
+
+
+def solo_digest(sc):
+    return [hashlib.sha256(json.dumps(solo_obs(sc), sort_keys=True, default=str).encode()).hexdigest()[:24]]
+
+
 def signature(v):
     return [v["oracle"], v["label"]] + list(v.get("sig_extra", []))
